@@ -1749,6 +1749,13 @@ func (*ParserCustomData).PrepareCustomDice
   requires d != nil && p != nil
   ensures [C17] !result ==> d.pendingCustomDice == nil
   ensures [C17] result ==> d.pendingCustomDice != nil
+  // whenever syntaxes are registered the predicate asks the matchers and answers what they answer — in a look-ahead
+  // exactly as in the real run (the grammar gates real parses by look-aheads of the same construct: C17, A_det)
+  ghost var tried int = 0
+  ghost var gok bool = false
+  ghost at call 1 d.tryMatchCustomDice: tried = tried + 1; gok = ret1
+  ensures [C17] old(d.ctx) != nil && old(len(d.ctx.CustomDiceInfo)) > 0 ==> tried == 1 && result == gok
+  ensures [C17] old(d.ctx) == nil || old(len(d.ctx.CustomDiceInfo)) == 0 ==> tried == 0 && !result
 
 func (*ParserCustomData).tryMatchCustomDice
   props C17 C01
